@@ -10,8 +10,15 @@ reference the harness's downstream node holds) and crashes/restarts the source
 `(partition, low, high)` tuples, the messages returned by the real
 `get_message_batch`, every `commit` call and the offsets a restarted source reads
 are diffed against the Lean model run on the same history.
+Half of the histories contain failures below the source: the handling of a chosen
+batch raises synchronously (in get_message_batch, in a map function, in a
+synchronous sink) or its awaited consumer (a real `sink(async fn)`) raises later;
+the model's `fail p i` action.  Such a batch must never be committed and must be
+delivered again after crash + restart (unless a LATER batch of the partition was
+completed, which is out-of-order completion).
 Oracle (model-free): the clauses of the property evaluated on what the fake broker saw.
 """
+import logging
 import sys
 
 from tornado.ioloop import IOLoop
@@ -46,28 +53,76 @@ class _FakeTime:
 
 # ------------------------------------------------------------------ implementation runner
 
-class Incarnation:
-    """One process: a real from_kafka_batched pipeline plus the harness's downstream nodes."""
+class Poison(Exception):
+    """Raised by the harness somewhere below the source while a chosen batch is being handled."""
 
-    def __init__(self, case, bname, obs):
+
+class Incarnation:
+    """One process: a real from_kafka_batched pipeline plus the harness's downstream nodes.
+
+        FromKafkaBatched -> starmap(get_message_batch*) -> map(inspect) -> [sink(sync probe)] -> consumer
+
+    * `get_message_batch*` is the real function wrapped so that the harness sees every (partition,
+      low, high) handed down and can make the call raise after it has read the messages ("gmb");
+    * `inspect` is a map function that raises for an armed batch ("map");
+    * the sync probe is a real `sink(fn)` whose function raises for an armed batch ("sink");
+    * the consumer is either `Hold` (a node that keeps the batch's reference until the harness
+      completes it) or a real `sink(async_fn)` whose coroutine waits for a future the harness
+      resolves (complete) or fails ("asink": a failing awaitable consumer).
+    """
+
+    def __init__(self, case, bname, loop):
         from streamz import Stream
+        import streamz.sources as ssources
 
         inc = self
-        self.obs = obs
-        self.batches = []      # [{"p","lo","hi","msgs","meta","done"}] in emission order
-        self.tuples = []       # raw (p, lo, hi) seen directly below the source
+        self.attempts = []     # every batch handed down, emission order: {"p","lo","hi","msgs","failed","held","done",..}
+        self.reported = 0
+        self.current = None
+        self.armed = {}        # partition -> mode ("gmb" | "map" | "sink") for the next batch of that partition
         self.errors = []
+        self.consumer_kind = case.get("consumer", "hold")
+        orig = ssources.get_message_batch
 
-        class Tap(Stream):
-            def update(self, x, who=None, metadata=None):
-                inc.tuples.append((x[2], x[4], x[5]))
+        def gmb(kafka_params, topic, partition, keys, low, high, **kw):
+            a = {"p": partition, "lo": low, "hi": high, "msgs": None, "failed": None, "held": False,
+                 "done": False, "meta": None, "fut": None, "mode": inc.armed.pop(partition, None)}
+            inc.attempts.append(a)
+            inc.current = a
+            a["msgs"] = orig(kafka_params, topic, partition, keys, low, high, **kw)
+            if a["mode"] == "gmb":
+                a["failed"] = "gmb"
+                raise Poison("get_message_batch failed for partition %d [%d,%d]" % (partition, low, high))
+            return a["msgs"]
+
+        def inspect(msgs):
+            a = inc.current
+            if a["mode"] == "map":
+                a["failed"] = "map"
+                raise Poison("map function failed")
+            return msgs
+
+        def probe(msgs):
+            a = inc.current
+            if a["mode"] == "sink":
+                a["failed"] = "sink"
+                raise Poison("synchronous sink failed")
 
         class Hold(Stream):
             """Downstream consumer under harness control: keeps the batch's reference until told."""
 
             def update(self, x, who=None, metadata=None):
                 self._retain_refs(metadata)
-                inc.batches.append({"msgs": x, "meta": metadata, "done": False})
+                a = inc.current
+                a["meta"] = metadata
+                a["held"] = True
+
+        def consume(x):
+            # an awaitable consumer: the future is resolved (or failed) by the harness
+            a = inc.current
+            a["fut"] = loop.create_future()
+            a["held"] = True
+            return a["fut"]
 
         params = {"bootstrap.servers": bname, "group.id": GROUP}
         if case["reset"] != "default":
@@ -81,35 +136,46 @@ class Incarnation:
             refresh_partitions=case["refresh"], keys=bool(case.get("keys")), asynchronous=True,
             loop=IOLoop.current(), **kw)
         self.raw = self.stream.upstreams[0]
-        self.tap = Tap(self.raw)
-        self.hold = Hold(self.stream)
+        if self.stream.func is not orig:
+            raise common.HarnessError("from_kafka_batched no longer maps get_message_batch over the source")
+        self.stream.func = gmb
+        node = self.stream.map(inspect)
+        self.probe = node.sink(probe)
+        if self.consumer_kind == "asink":
+            self.consumer = node.sink(consume)
+        else:
+            self.hold = Hold(node)
         self.stream.start()
 
     def new_batches(self):
-        """Pair the raw tuples with what get_message_batch produced for them (same order)."""
-        out = []
-        for i, b in enumerate(self.batches):
-            if "p" not in b:
-                if i >= len(self.tuples):
-                    self.errors.append("batch without tuple")
-                    continue
-                b["p"], b["lo"], b["hi"] = self.tuples[i]
-                out.append(b)
+        out = self.attempts[self.reported:]
+        self.reported = len(self.attempts)
         return out
 
-    def inflight(self):
-        return [b for b in self.batches if not b["done"]]
+    def of_partition(self, p):
+        return [a for a in self.attempts if a["p"] == p]
 
-    def complete(self, b):
-        b["done"] = True
-        self.hold._release_refs(b["meta"])
+    def inflight(self):
+        return [a for a in self.attempts if a["held"] and not a["done"] and not a["failed"]]
+
+    def complete(self, a):
+        a["done"] = True
+        if self.consumer_kind == "asink":
+            a["fut"].set_result(None)
+        else:
+            self.hold._release_refs(a["meta"])
+
+    def fail_consumer(self, a):
+        """The awaited consumer raises (asink only)."""
+        a["failed"] = "asink"
+        a["fut"].set_exception(Poison("awaited consumer failed"))
 
     def crash(self):
         self.raw.stopped = True
         if self.raw.consumer is not None:
             self.raw.consumer.dead = True
-        for b in self.batches:
-            b["meta"] = None
+        for a in self.attempts:
+            a["meta"] = None
 
 
 def msg_offsets(msgs, p):
@@ -169,35 +235,53 @@ def run_impl(case, ops):
                     rop = ["complete", 0, 9999]
                     if inc is not None and inc.inflight():
                         fl = inc.inflight()
+                        b = None
                         if op[1] == "oldest":
-                            ps = sorted(set(b["p"] for b in fl))
-                            p = ps[op[2] % len(ps)]
-                            b = [x for x in fl if x["p"] == p][0]
+                            # in-order mode: only the first unfinished batch of a partition may complete;
+                            # a partition whose first unfinished batch failed is blocked for ever
+                            firsts = []
+                            for p in sorted(set(x["p"] for x in fl)):
+                                first = [x for x in inc.of_partition(p) if not x["done"]][0]
+                                if first in fl:
+                                    firsts.append(first)
+                            if firsts:
+                                b = firsts[op[2] % len(firsts)]
                         else:
                             b = fl[op[2] % len(fl)]
-                        idx = [x for x in inc.batches if x["p"] == b["p"]].index(b)
-                        rop = ["complete", b["p"], idx]
-                        inc.complete(b)
-                        await vloop.settle(loop)
-                elif op[0] == "completeat":      # already resolved (replay of a resolved history)
-                    rop = ["complete", op[1], op[2]]
-                    if inc is not None:
-                        mine = [x for x in inc.batches if x["p"] == op[1]]
-                        if op[2] < len(mine) and not mine[op[2]]["done"]:
-                            inc.complete(mine[op[2]])
+                        if b is not None:
+                            rop = ["complete", b["p"], inc.of_partition(b["p"]).index(b)]
+                            inc.complete(b)
                             await vloop.settle(loop)
+                elif op[0] == "arm":
+                    # the next batch of partition op[2] fails synchronously in get_message_batch / map / sink
+                    if inc is not None:
+                        inc.armed[op[2]] = op[1]
+                elif op[0] == "failc":
+                    # the awaited consumer of an in-flight batch raises (asink consumer only)
+                    rop = ["fail", 0, 9999]
+                    if inc is not None and inc.consumer_kind == "asink" and inc.inflight():
+                        fl = inc.inflight()
+                        b = fl[op[1] % len(fl)]
+                        rop = ["fail", b["p"], inc.of_partition(b["p"]).index(b)]
+                        inc.fail_consumer(b)
+                        await vloop.settle(loop)
                 elif op[0] == "restart":
                     if inc is not None:
                         inc.crash()
-                    inc = Incarnation(case, bname, ev)
+                    inc = Incarnation(case, bname, loop)
                     await vloop.settle(loop)
                 else:
                     raise ValueError(op)
                 if inc is not None:
                     for b in inc.new_batches():
-                        ev["emit"].append([b["p"], b["lo"], b["hi"], msg_offsets(b["msgs"], b["p"])])
+                        ev["emit"].append([b["p"], b["lo"], b["hi"], msg_offsets(b["msgs"] or [], b["p"])])
+                        if b["failed"]:
+                            ev.setdefault("failed", []).append([b["p"], inc.of_partition(b["p"]).index(b), b["failed"]])
+                        elif not b["held"]:
+                            ev.setdefault("error", []).append("batch [%d,%d] of partition %d did not reach the consumer" % (b["lo"], b["hi"], b["p"]))
                     if inc.errors:
-                        ev["error"] = list(inc.errors)
+                        ev["error"] = ev.get("error", []) + list(inc.errors)
+                        inc.errors = []
                 for rec in br.log[mark:]:
                     if rec[0] == "commit":
                         ev["commit"].append([rec[2], rec[3]])
@@ -224,21 +308,30 @@ def run_impl(case, ops):
             ssources.time = old_time
         return events
 
-    vloop.run(main)
+    # failures below the source are logged by streamz (starmap/map: logger.exception) and by tornado
+    # ("Exception in callback"); that is expected noise here
+    logging.disable(logging.CRITICAL)
+    try:
+        vloop.run(main)
+    finally:
+        logging.disable(logging.NOTSET)
     fck.BROKERS.pop(bname, None)
     return events, resolved
 
 
 # ------------------------------------------------------------------ model side
 
-def model_lines(case, rops):
-    """Driver lines for a resolved history; returns (lines, index map op -> [line numbers])."""
+def model_lines(case, rops, events):
+    """Driver lines for a resolved history; returns (lines, index map op -> [line numbers]).
+
+    A batch whose handling raised synchronously while an op's poll emitted it becomes a `fail` line
+    right after that poll."""
     lines = [{"op": "reset", "mb": case["mb"], "refresh": case["refresh"],
               "latest": case["reset"] in ("latest", "default"),
               "npart_cfg": case.get("npart_cfg"), "nparts": case["nparts"]}]
     where = []
     started = False
-    for op in rops:
+    for op, ev in zip(rops, events):
         idx = []
         if op[0] == "produce":
             lines.append({"op": "produce", "p": op[1], "k": op[2]}); idx = [len(lines) - 1]
@@ -252,10 +345,16 @@ def model_lines(case, rops):
         elif op[0] == "complete":
             if started:
                 lines.append({"op": "complete", "p": op[1], "i": op[2]}); idx = [len(lines) - 1]
+        elif op[0] == "fail":
+            if started:
+                lines.append({"op": "fail", "p": op[1], "i": op[2]}); idx = [len(lines) - 1]
         elif op[0] == "restart":
             started = True
             # start() runs the first loop iteration at once
             lines.append({"op": "restart"}); lines.append({"op": "poll"}); idx = [len(lines) - 2, len(lines) - 1]
+        if op[0] in ("poll", "restart") and started:
+            for p, k, _mode in ev.get("failed", []):
+                lines.append({"op": "fail", "p": p, "i": k}); idx.append(len(lines) - 1)
         where.append(idx)
     return lines, where
 
@@ -300,7 +399,7 @@ class Oracle:
         self.latest = case["reset"] in ("latest", "default")
         self.fails = []
         self.inc = None
-        self.stats = {"ranges": 0, "commits": 0, "redelivered": 0, "crashes_checked": 0}
+        self.stats = {"ranges": 0, "commits": 0, "redelivered": 0, "crashes_checked": 0, "failed": 0, "failed_redelivered": 0}
 
     def fail(self, sig, what):
         self.fails.append(("c09:" + sig, what))
@@ -325,6 +424,7 @@ class Oracle:
                 self.inc = {"start": {p: c for p, c in enumerate(pos)}, "known0": set(range(len(pos))), "exist0": len(wm),
                             "hi0": {p: wm[p][1] for p in range(len(wm))},
                             "ranges": {}, "ooo": set(), "pending": old["required"] if old else None,
+                            "pending_failed": old["required_failed"] if old else {},
                             "prev_start_none": None}
             inc = self.inc
             for p, lo, hi, offs in ev["emit"]:
@@ -360,7 +460,24 @@ class Oracle:
                             self.fail("first-range-not-at-reset-position", "op %d: first range of partition %d is [%d,%d]; no committed offset, reset position %d (%s)" % (i, p, lo, hi, want, self.case["reset"]))
                 if offs != list(range(lo, hi + 1)):
                     self.fail("batch-content", "op %d: get_message_batch for partition %d [%d,%d] returned offsets %r" % (i, p, lo, hi, offs))
-                rs.append([lo, hi, False])
+                rs.append([lo, hi, False, False])      # lo, hi, completely processed, processing raised
+            # failures below the source: synchronous ones come with the poll that emitted the batch,
+            # a failing awaited consumer is an op of its own
+            newly_failed = [(p, k) for p, k, _ in ev.get("failed", [])]
+            if op[0] == "fail" and inc is not None and op[2] != 9999:
+                newly_failed.append((op[1], op[2]))
+            for p, k in newly_failed:
+                rs = inc["ranges"].get(p, [])
+                if k < len(rs):
+                    rs[k][3] = True
+                    self.stats["failed"] += 1
+            if inc is not None:
+                for p, off in ev["commit"]:
+                    for lo, hi, done, failed in inc["ranges"].get(p, []):
+                        if failed and hi + 1 == off:
+                            self.fail("failed-batch-committed",
+                                      "op %d %r: offset %d of partition %d committed although the processing of batch [%d,%d] raised "
+                                      "(it was never completely processed)" % (i, op, off, p, lo, hi))
             # commits
             if op[0] == "complete" and inc is not None and op[2] != 9999:
                 p, k = op[1], op[2]
@@ -384,17 +501,22 @@ class Oracle:
         inc = self.inc
         if inc is None:
             return
-        req = {}
+        req, freq = {}, {}
         for p, rs in inc["ranges"].items():
             if p in inc["ooo"] or not rs:
                 continue
             start = rs[0][0]
             need = set(range(max(start, wm_now[p][0]), wm_now[p][1]))
-            for lo, hi, done in rs:
+            fneed = set()
+            for lo, hi, done, failed in rs:
                 if done:
                     need -= set(range(lo, hi + 1))
+                if failed:
+                    fneed |= set(range(lo, hi + 1))
             req[p] = need
+            freq[p] = fneed & need
         inc["required"] = req
+        inc["required_failed"] = freq
 
     def check_redelivery(self):
         """Call after a run that ended with restart + draining polls."""
@@ -406,16 +528,21 @@ class Oracle:
             if p not in inc["start"] and p not in inc["ranges"]:
                 continue        # partition outside this configuration's npartitions
             got = set()
-            for lo, hi, _ in inc["ranges"].get(p, []):
+            for lo, hi, _, _ in inc["ranges"].get(p, []):
                 got |= set(range(lo, hi + 1))
             low_now = self.final_wm[p][0]
             missing = sorted(o for o in need - got if o >= low_now)
             self.stats["redelivered"] += len(need & got)
+            fneed = inc["pending_failed"].get(p, set())
+            self.stats["failed_redelivered"] += len(fneed & got)
             if missing:
                 if inc["start"].get(p, NONE) == NONE and self.latest:
                     self.fail("latest-uncommitted-restart-skips",
                               "partition %d: offsets %r were emitted (or pending) and never completely processed before the crash, no offset was "
                               "committed yet, and the restarted source (auto.offset.reset=latest) began at the new high watermark" % (p, missing))
+                elif set(missing) & fneed:
+                    self.fail("failed-batch-not-redelivered", "partition %d: offsets %r belong to a batch whose processing raised before the crash; "
+                              "they were not delivered again (restart read committed offset %r)" % (p, sorted(set(missing) & fneed), inc["start"].get(p)))
                 else:
                     self.fail("at-least-once-lost", "partition %d: offsets %r not completely processed before the crash were not delivered again "
                               "(restart read committed offset %r)" % (p, missing, inc["start"].get(p)))
@@ -436,6 +563,9 @@ def gen_case(rng):
     if rng.random() < 0.2:
         case["npart_cfg"] = rng.randint(1, nparts)
     inorder = rng.random() < 0.6
+    # half of the histories contain failures below the source
+    faulty = rng.random() < 0.5
+    case["consumer"] = "asink" if faulty and rng.random() < 0.35 else "hold"
     total = nparts
     ops = []
     for _ in range(rng.randint(0, 2)):
@@ -443,6 +573,15 @@ def gen_case(rng):
     ops.append(["restart"])
     n = rng.choice([6, 12, 18, 25])
     while len(ops) < n:
+        if faulty and rng.random() < 0.10:
+            if case["consumer"] == "asink" and rng.random() < 0.6:
+                ops.append(["failc", rng.randrange(6)])
+            else:
+                p = rng.randrange(total)
+                ops.append(["arm", rng.choice(["gmb", "map", "sink"]), p])
+                if rng.random() < 0.6:
+                    ops += [["produce", p, rng.randint(1, 4)], ["poll"]]
+            continue
         r = rng.random()
         if r < 0.30:
             ops.append(["produce", rng.randrange(total), rng.choice([1, 1, 2, 3, 5, 7])])
@@ -467,8 +606,8 @@ def gen_case(rng):
     return {"case": case, "ops": ops}
 
 
-def C(mb, reset, refresh, nparts, npart_cfg=None):
-    return {"mb": mb, "reset": reset, "refresh": refresh, "nparts": nparts, "npart_cfg": npart_cfg}
+def C(mb, reset, refresh, nparts, npart_cfg=None, consumer="hold"):
+    return {"mb": mb, "reset": reset, "refresh": refresh, "nparts": nparts, "npart_cfg": npart_cfg, "consumer": consumer}
 
 
 CORPUS = [
@@ -491,6 +630,25 @@ CORPUS = [
     {"case": C(2, "earliest", True, 2), "ops": [["produce", 1, 4], ["restart"], ["poll"], ["complete", "oldest", 0], ["restart"]]},
     {"case": C(2, "earliest", True, 2, 1), "ops": [["produce", 1, 4], ["restart"], ["poll"], ["complete", "oldest", 0], ["restart"], ["poll"]]},
     {"case": C(2, "latest", True, 2, 1), "ops": [["restart"], ["produce", 1, 4], ["poll"], ["complete", "oldest", 0], ["produce", 1, 2], ["restart"], ["poll"]]},
+    # a batch whose processing raises (poison message) is never committed and comes again after the crash:
+    # A=[0,2] processed -> 3 committed; B=[3,4] raises in get_message_batch / a map function / a synchronous sink
+    {"case": C(3, "earliest", False, 1), "ops": [["produce", 0, 3], ["restart"], ["complete", "oldest", 0], ["produce", 0, 2],
+                                                    ["arm", "gmb", 0], ["poll"], ["poll"]]},
+    {"case": C(3, "earliest", False, 1), "ops": [["produce", 0, 3], ["restart"], ["complete", "oldest", 0], ["produce", 0, 2],
+                                                    ["arm", "map", 0], ["poll"], ["poll"]]},
+    {"case": C(3, "earliest", False, 1), "ops": [["produce", 0, 3], ["restart"], ["complete", "oldest", 0], ["produce", 0, 2],
+                                                    ["arm", "sink", 0], ["poll"], ["produce", 0, 1], ["poll"]]},
+    # the very first batch of an incarnation raises (nothing committed yet)
+    {"case": C(2, "earliest", False, 2), "ops": [["produce", 1, 2], ["arm", "map", 1], ["restart"], ["arm", "map", 1], ["produce", 1, 2], ["poll"], ["poll"]]},
+    # a failing awaited consumer (real sink(async fn)): first batch completes, second one's coroutine raises
+    {"case": C(2, "earliest", False, 1, consumer="asink"), "ops": [["produce", 0, 4], ["restart"], ["poll"], ["complete", "oldest", 0],
+                                                                      ["failc", 0], ["poll"]]},
+    # failure, then a LATER batch of the partition completes (out of order: the proviso of the property does not hold)
+    {"case": C(2, "earliest", False, 1), "ops": [["produce", 0, 2], ["arm", "map", 0], ["restart"], ["produce", 0, 2], ["poll"],
+                                                    ["complete", "any", 0], ["poll"]]},
+    # failure in one partition does not disturb the other one
+    {"case": C(2, "latest", True, 2), "ops": [["restart"], ["produce", 0, 2], ["produce", 1, 2], ["arm", "gmb", 0], ["poll"],
+                                                 ["complete", "oldest", 0], ["produce", 0, 1], ["poll"], ["complete", "oldest", 0]]},
     # crash with a committed offset and several in-flight batches
     {"case": C(1, "earliest", False, 2), "ops": [["produce", 0, 3], ["produce", 1, 3], ["restart"], ["poll"], ["poll"], ["complete", "oldest", 0], ["complete", "oldest", 1]]},
 ]
@@ -534,6 +692,14 @@ def judge(ctx, rec, answers, where):
     ctx.count("ranges-emitted", orc.stats["ranges"])
     ctx.count("commits", orc.stats["commits"])
     ctx.count("offsets-redelivered-after-crash", orc.stats["redelivered"])
+    ctx.count("batches-whose-processing-raised", orc.stats["failed"])
+    ctx.count("offsets-of-failed-batches-redelivered-after-crash", orc.stats["failed_redelivered"])
+    ctx.count("consumer:" + case.get("consumer", "hold"))
+    for ev in rec["events"]:
+        for _p, _k, mode in ev.get("failed", []):
+            ctx.count("failure-in:" + mode)
+    if any(op[0] == "fail" and op[2] != 9999 for op in rec["rops"]):
+        ctx.count("failure-in:asink")
     if any(op[0] == "trunc" for op in item["ops"][:item["probe"]]):
         ctx.count("with-truncation")
     if any(op[0] == "add" for op in item["ops"][:item["probe"]]):
@@ -556,7 +722,10 @@ ASSUMPTIONS = [
     "message values are non-empty (get_message_batch skips falsy values and would wait forever for a tombstone that ends a batch)",
     "an explicit npartitions argument never exceeds the number of partitions of the topic",
     "a crash is modelled at the granularity of harness events (between two events the loop is quiescent); a restart uses a fresh copy of the configuration",
-    "downstream of the source the batch's reference is held by a harness node until the harness completes the batch (C04 covers real downstream nodes)",
+    "downstream of the source the batch's reference is held by a harness node until the harness completes the batch, or (consumer=asink) by the "
+    "real sink(async fn) until the harness resolves/fails the awaited future (C04 covers real downstream nodes in general)",
+    "failures below the source are injected by the harness: the wrapped get_message_batch raising after it has read the messages, a map function, "
+    "a synchronous sink function, or the awaited consumer raising; a batch whose handling raised is never retried within the incarnation",
 ]
 
 
@@ -571,7 +740,7 @@ def run(ctx):
             recs.append(run_item(ctx, it, k))
     lines, spans = [], []
     for rec in recs:
-        ml, where = model_lines(rec["item"]["case"], rec["rops"])
+        ml, where = model_lines(rec["item"]["case"], rec["rops"], rec["events"])
         spans.append((len(lines), len(lines) + len(ml), where))
         lines += ml
     answers = common.lean_driver("Kafka", lines)
@@ -590,7 +759,7 @@ def replay(ctx, data):
     item = data["case"]
     k = item.get("probe", len(item["ops"]))
     rec = run_item(ctx, item, k)
-    ml, where = model_lines(item["case"], rec["rops"])
+    ml, where = model_lines(item["case"], rec["rops"], rec["events"])
     answers = common.lean_driver("Kafka", ml)
     judge(ctx, rec, answers, where)
     ctx.coverage["rule"] = "replay of one recorded history"
